@@ -28,10 +28,16 @@ def gen_consts(steps, runs, **over):
     return consts(**c)
 
 
+def lost_consts(steps):
+    return gen_consts(steps, 2, Ends=['ret'], Bodies=['plain', 'forces'], Ctl=['force'], Extractors=['none', 'interrupts'],
+                      Classes=[c for c in classes() if c['rate'] in ('frac', 'zero', 'one')])
+
+
 def run(rep, tier, seed):
     rep.rule = ('(1) decision table: complete paths of the TLC graph of Recorder.tla over skipped x rate {0, fractional, '
                 '1, >1} x ignore-forcing x force/discard (from the operation or an intercepted body, in any order) x '
-                'outcome {return, raise, interrupt} x draw class, one and two runs (no sticky forcing); the draw is '
+                'outcome {return, raise, interrupt} x draw class, one and two runs (no sticky forcing; incl. a first run whose '
+                'finalisation is itself interrupted by a BaseException of the metadata extractor); the draw is '
                 'scripted through the module-level Random name. (2) long seeded histories with an unmodified '
                 'random.Random: same seed twice, and paired histories that differ only in operation content/outcome, '
                 'must give identical decision sequences; the kept fraction must be within 6 sigma of the rate. '
@@ -42,10 +48,14 @@ def run(rep, tier, seed):
     try:
         if tier == 'quick':
             chk.check('chk', gen_consts(2, 2), invariants=INVS)
+            chk.check('chklost', lost_consts(2), invariants=INVS + ['LostOnlyByInterruptedFinalisation'])
             ex = chk.generate('table', gen_consts(2, 1), cassettes=('memory',), n_conc=1, all_paths=True, cap=60000)
             chk.generate('tworuns', gen_consts(1, 2, Ends=['ret'], InCalls=[('ia2', 2)], InFaults=['none', 'prepFail', 'keyFail'],
                                                Classes=[c for c in classes() if c['rate'] in ('frac', 'zero')]),
                          cassettes=('memory',), n_conc=1, all_paths=True, cap=40000)
+            # a forced (or otherwise kept) run whose finalisation is itself interrupted (BaseException of the metadata
+            # extractor), then a second run: nothing of the first - the force flag least of all - reaches its decision
+            chk.generate('lostruns', lost_consts(1), cassettes=('memory',), n_conc=1, all_paths=True, cap=40000)
             long_histories(rep, seed, n=2500)
             storage_sampling(rep, seed, n=400)
             rep.exhaustive = bool(ex)
@@ -54,6 +64,7 @@ def run(rep, tier, seed):
             ex = chk.generate('table', gen_consts(2, 1), cassettes=('memory', 'file'), n_conc=2, all_paths=True)
             chk.generate('tworuns', gen_consts(2, 2, Ends=['ret', 'raise']), cassettes=('memory',), n_conc=1,
                          sample=80000, cap=120000, max_states=900000)
+            chk.generate('lostruns', lost_consts(2), cassettes=('memory',), n_conc=1, sample=60000, cap=90000, max_states=900000)
             long_histories(rep, seed, n=40000)
             storage_sampling(rep, seed, n=5000)
             rep.exhaustive = bool(ex)
